@@ -143,6 +143,7 @@ EditStart(p) == /\ pc[p] = "E_Begin"
                 /\ IF op[p] = "none" THEN Goto(p, "done") /\ Obs(p, "exit", "-", "ok")
                    ELSE IF op[p] = "reset" THEN Goto(p, "R_Chk") /\ Obs(p, "edit", "-", "reset")
                    ELSE IF op[p] = "resetsub" THEN Goto(p, "R2_Chk") /\ Obs(p, "edit", "-", "resetsub")
+                   ELSE IF op[p] = "resetcli" THEN Goto(p, "RC_Chk") /\ Obs(p, "edit", "-", "resetcli")
                    ELSE Goto(p, "S_RdOpen") /\ Obs(p, "edit", "-", "set")
                 /\ UNCHANGED <<dir, ver, cfg, tmp, op, rd, loaded, crashes>>
 ResetChk(p) == /\ pc[p] = "R_Chk" /\ Goto(p, "R_W0")      \* reset(): `not destination.exists() or subset is None`
@@ -150,6 +151,10 @@ ResetChk(p) == /\ pc[p] = "R_Chk" /\ Goto(p, "R_W0")      \* reset(): `not desti
                /\ UNCHANGED <<dir, ver, cfg, tmp, op, rd, loaded, crashes>>
 ResetSubChk(p) == /\ pc[p] = "R2_Chk"                      \* reset(subset): exists, then read-modify-write
                   /\ Goto(p, IF cfg # "absent" THEN "S_RdOpen" ELSE "R_W0")
+                  /\ Obs(p, "exists", "cfg", IF cfg # "absent" THEN "T" ELSE "F")
+                  /\ UNCHANGED <<dir, ver, cfg, tmp, op, rd, loaded, crashes>>
+\* `evo_config reset -y` (main_config.main): settings.reset() as above, then the new file is shown (read again)
+ResetCliChk(p) == /\ pc[p] = "RC_Chk" /\ Goto(p, "RC_W0")
                   /\ Obs(p, "exists", "cfg", IF cfg # "absent" THEN "T" ELSE "F")
                   /\ UNCHANGED <<dir, ver, cfg, tmp, op, rd, loaded, crashes>>
 Exit(p) == /\ pc[p] = "E_End" /\ Goto(p, "done") /\ Obs(p, "exit", "-", "ok")
@@ -167,6 +172,8 @@ Step(p) ==
   \/ EditStart(p) \/ ResetChk(p) \/ ResetSubChk(p) \/ Write(p, "R", "E_End")
   \/ OpenR(p, "S_RdOpen", "S_RdRead", "cfg") \/ JsonRead(p, "S_RdRead", "S_W0", "set")
   \/ Write(p, "S", "E_End") \/ Exit(p)
+  \/ ResetCliChk(p) \/ Write(p, "RC", "RC_ShowOpen")
+  \/ OpenR(p, "RC_ShowOpen", "RC_ShowRead", "cfg") \/ JsonRead(p, "RC_ShowRead", "E_End", "show")
 
 Next == \E p \in Procs : Start(p) \/ Step(p) \/ Crash(p)
 Spec == Init /\ [][Next]_vars
